@@ -2,10 +2,11 @@ import CotengraVerif.Driver.Util
 import CotengraVerif.Model.Reuse
 import CotengraVerif.Model.ReuseNest
 import CotengraVerif.Model.ReusePool
+import CotengraVerif.Model.ReuseIface
 
 namespace Cotengra.Driver.C16
 open Lean Cotengra Cotengra.Driver Cotengra.Hyper Cotengra.Reuse
-open Cotengra.ReuseNest Cotengra.ReusePool
+open Cotengra.ReuseNest Cotengra.ReusePool Cotengra.ReuseIface
 
 def scoreOf (j : Json) : Except String Score :=
   match j with
@@ -239,6 +240,71 @@ def pool : Handler := fun j => do
           ("pending", jNat (s.lists sr.list).length), ("submitted", jNat sr.h.submitted)]
   pure (jObj [("searches", jArr outs), ("mismatch", jArr mism)])
 
-def handlers : List (String × Handler) := [("c16.run", run), ("c16.nrun", nrun), ("c16.pool", pool)]
+/-! ### the path cache of the functional interface: `c16.iface` -/
+
+def ipcName : IPC → String
+  | .idle => "idle" | .missed _ => "missed" | .found _ _ => "found"
+
+/-- which access of `_PATH_CACHE` the next step of thread `t` makes ("" = none) -/
+def ilabel (cfg : ICfg) (s : ISys) (t : Nat) : String :=
+  match (s.threads t).pc with
+  | .idle =>
+    match (s.threads t).queue with
+    | [] => "quiescent"
+    | q :: _ => if (s.cache (cfg.keyOf q)).isSome then "hit" else "miss"
+  | .missed _ => ""
+  | .found _ _ => "store"
+
+/-- thread `t` steps (all through `ReuseIface.istep`) until it has made an access to `_PATH_CACHE`;
+    "end" = it finished a query without a further access -/
+def irunSegment (cfg : ICfg) (t : Nat) : Nat → ISys → ISys × String
+  | 0, s => (s, "out-of-fuel")
+  | fuel + 1, s =>
+    let l := ilabel cfg s t
+    if l == "quiescent" then (s, "quiescent")
+    else
+      let s1 := istep cfg s t
+      if l == "" then irunSegment cfg t fuel s1 else (s1, l)
+
+/-- op `c16.iface`: `queues`: per thread [[net, preset]]; `segments`: [[thread, "hit"|"miss"|
+    "store"|"end"]] ("end": the thread's query returned: after a hit or a store the harness yields
+    once more between two queries); `probe`: [[net, preset]] keys to report. -/
+def iface : Handler := fun j => do
+  let queues ← (← arrOf (← field j "queues")).mapM fun qs => do
+    (← arrOf qs).mapM fun q => do
+      match ← arrOf q with
+      | [n, p] => pure ({ net := ← natOf n, preset := ← natOf p } : IQuery)
+      | _ => throw "query must be [net, preset]"
+  let segs ← (← arrOf (fieldD j "segments" (jArr []))).mapM fun p => do
+    match ← arrOf p with
+    | [t, l] => pure (← natOf t, ← l.getStr?)
+    | _ => throw "segment must be [thread, label]"
+  let probe ← pairList (fieldD j "probe" (jArr []))
+  let cfg : ICfg := { keyOf := fun q => q.net * 64 + q.preset % 64, inner := fun _ _ q => q.net }
+  let mut s := ISys.start fun t => queues.getD t []
+  let mut mism : Json := Json.null
+  let mut i := 0
+  for (t, lab) in segs do
+    if mism == Json.null then
+      if lab == "end" then
+        -- the query has returned already (hit / store finish it); nothing to step
+        pure ()
+      else
+        let (s1, got) := irunSegment cfg t 8 s
+        s := s1
+        if got != lab then
+          mism := jObj [("segment", jNat i), ("expected", jStr lab), ("got", jStr got)]
+    i := i + 1
+  let n := queues.length
+  let outs := (List.range n).map fun t =>
+    let th := s.threads t
+    jObj [("results", jArr (th.results.map fun (q, p) => jArr [jNat q.net, jNat q.preset, jNat p])),
+          ("ncalls", jNat th.ncalls), ("pc", jStr (ipcName th.pc)), ("left", jNat th.queue.length)]
+  let cached := probe.map fun (nn, p) =>
+    jArr [jNat nn, jNat p, jBool (s.cache (cfg.keyOf { net := nn, preset := p })).isSome]
+  pure (jObj [("threads", jArr outs), ("cached", jArr cached), ("mismatch", mism)])
+
+def handlers : List (String × Handler) :=
+  [("c16.run", run), ("c16.nrun", nrun), ("c16.pool", pool), ("c16.iface", iface)]
 
 end Cotengra.Driver.C16
